@@ -77,7 +77,7 @@ def from_ncswan(dset):
     # Only selected variables to be returned
     to_drop = list(set(dset.data_vars.keys()) - to_keep)
     # Converting from radians
-    dset[attrs.SPECNAME] /= R2D
+    dset[attrs.SPECNAME] = dset[attrs.SPECNAME] / R2D
     if attrs.DIRNAME in dset:
         dset = dset.assign_coords({attrs.DIRNAME: (dset[attrs.DIRNAME] * R2D) % 360})
     # Ensure site is a coordinate
